@@ -501,6 +501,8 @@ class Run(object):
             obj = VNonAsync(self, c, t)
         elif ty == "cleanup":
             obj = VCleanup(self, c, t, d["var"])
+        elif ty == "oapi":
+            obj = VOverrideApi(self, c, t, self.svars[d["var"]], d["val"])
         elif ty == "override":
             obj = VOverride(self.svars[d["var"]], d["val"])
             obj._vinit(self, c, t)
@@ -1227,6 +1229,25 @@ class VOverride(_sv._AsyncScopedValueOverrideContext, _CtxMixin):
     def pause(self):
         self._run.emit("Pause", a=self._c)
         return _sv._AsyncScopedValueOverrideContext.pause(self)
+
+
+class VOverrideApi(_CtxMixin):
+    """`with sv.override(v):` written with the PUBLIC API: whatever AsyncScopedValue.override() hands out is used as it is
+    (it cannot be subclassed for recording, so its resume / pause are not observed - only entering, leaving and every read)"""
+
+    def __init__(self, run, c, t, sv, val):
+        self._vinit(run, c, t)
+        self._sv, self._val, self._inner = sv, val, None
+
+    def __enter__(self):
+        self._run.emit("Enter", a=self._c, t=self._t)
+        self._inner = self._sv.override(self._val)
+        self._inner.__enter__()
+        return self
+
+    def __exit__(self, ty, val, tb):
+        self._run.emit("Exit", a=self._c, t=self._t)
+        return self._inner.__exit__(ty, val, tb)
 
 
 class VAttrOverride(_sv._AsyncPropertyOverrideContext, _CtxMixin):
